@@ -83,6 +83,8 @@ def one(pid, root, kind, name, patch):
             return (kind, name, 'ok' if ok else 'FAILED', f'exit {rc}' + ('' if ok else ' (expected a VIOLATION)'))
         ok = rc == 0
         first = [l for l in out.splitlines() if 'VIOLATED' in l or 'ANALYSIS-ERROR' in l][:1]
+        if kind == 'benign-known-alarm':
+            return (kind, name, 'ok' if ok else 'known-alarm', f'exit {rc}' + ('' if ok else f' (known false alarm) {first}'))
         return (kind, name, 'ok' if ok else 'FAILED', f'exit {rc}' + ('' if ok else f' (expected silence) {first}'))
     finally:
         shutil.rmtree(scratch, ignore_errors=True)
@@ -114,10 +116,17 @@ def corpus(pid):
         jobs.append(('mechanical', mode, mode))
     bd = os.path.join(VERIF, 'benign')
     if os.path.isdir(bd):
+        known = set()
+        ka = os.path.join(bd, 'KNOWN_ALARMS')
+        if os.path.exists(ka):
+            with open(ka) as fh:
+                known = {l.strip() for l in fh if l.strip() and not l.startswith('#')}
         for name in sorted(os.listdir(bd)):
             pp = os.path.join(bd, name, 'patch.diff')
             if os.path.exists(pp):
-                jobs.append(('benign', name, pp))
+                # behaviour-preserving restructurings on which some checks are known to raise a false alarm (DESIGN 10.3):
+                # they are run and reported, but an alarm on them does not fail the self-test
+                jobs.append(('benign-known-alarm' if name in known else 'benign', name, pp))
     return jobs
 
 
@@ -131,9 +140,12 @@ def thorough(pid, root, seed):
     failed = [r for r in results if r[2] == 'FAILED']
     skipped = [r for r in results if r[2] == 'skipped']
     nseed = sum(1 for r in results if r[0] == 'seeded' and r[2] == 'ok')
-    nben = sum(1 for r in results if r[0] in ('benign', 'mechanical') and r[2] == 'ok')
+    nben = sum(1 for r in results if r[0] in ('benign', 'mechanical', 'benign-known-alarm') and r[2] == 'ok')
+    known = [r for r in results if r[2] == 'known-alarm']
     print(f'{pid}: self-test — {nseed} seeded defect(s) reported, {nben} behaviour-preserving variant(s) silent, '
-          f'{len(skipped)} skipped, {len(failed)} failed')
+          f'{len(known)} known false alarm(s) on heavy restructurings, {len(skipped)} skipped, {len(failed)} failed')
+    for r in known:
+        print(f'  known false alarm: {r[1]}: {r[3][:160]}')
     for r in skipped:
         print(f'  skipped {r[0]} {r[1]}: {r[3]}')
     # merge into the evidence file
@@ -143,6 +155,7 @@ def thorough(pid, root, seed):
             ev = json.load(fh)
         ev['tier'] = 'thorough'
         ev['coverage']['selftest'] = {'seeded_defects_reported': nseed, 'benign_variants_silent': nben,
+                                      'known_false_alarms': [list(r) for r in known],
                                       'skipped': [list(r) for r in skipped], 'failed': [list(r) for r in failed],
                                       'cases': [list(r) for r in results]}
         with open(evp, 'w') as fh:
